@@ -89,6 +89,38 @@ install_scope_guard()
 
 
 # --------------------------------------------------------------------------
+# Level value table: real, or (simulation B only) a permissive stub
+# --------------------------------------------------------------------------
+
+from vc2_conformance.level_constraints import LEVEL_CONSTRAINTS as _LEVEL_CONSTRAINTS  # noqa: E402
+from vc2_conformance.constraint_table import AnyValue as _AnyValue  # noqa: E402
+
+_REAL_LEVEL_ROWS = list(_LEVEL_CONSTRAINTS)
+_LEVEL_MODE = ["real"]
+
+
+def use_permissive_levels():
+    """Replace the level *value* table (LEVEL_CONSTRAINTS) in this process by a
+    single all-permitting row, so that tiny pictures can carry any level number.
+    LEVEL_SEQUENCE_RESTRICTIONS — the data-unit ordering patterns — stays the
+    real table.  Recorded as a stub in the evidence of the checks that use it."""
+    if _LEVEL_MODE[0] != "permissive":
+        keys = set()
+        for row in _REAL_LEVEL_ROWS:
+            keys.update(row.keys())
+        del _LEVEL_CONSTRAINTS[:]
+        _LEVEL_CONSTRAINTS.append({k: _AnyValue() for k in sorted(keys)})
+        _LEVEL_MODE[0] = "permissive"
+
+
+def use_real_levels():
+    if _LEVEL_MODE[0] != "real":
+        del _LEVEL_CONSTRAINTS[:]
+        _LEVEL_CONSTRAINTS.extend(_REAL_LEVEL_ROWS)
+        _LEVEL_MODE[0] = "real"
+
+
+# --------------------------------------------------------------------------
 # Taps on the validator (capture what it read)
 # --------------------------------------------------------------------------
 
